@@ -464,6 +464,7 @@ func C17(ctx *core.Ctx, r *core.Report) {
 		C18(ctx, sub)
 		r.Borrow(sub, "cache-dropped-on-mutation")
 	}
+	c17LessComparesWholeKey(ctx, r)
 }
 
 // c17TupleBound: in val.CompareVals every index into the second tuple must be
